@@ -39,6 +39,8 @@ TEMPLATES = {
     "if": ("@if 1\n@db 1\n@endif\n@if 0\n@db 2\n@endif\n", "01"),
     # operators written directly against names and numbers (a colon glued to a label is still the ternary's colon)
     "tight": ("@defn q1, 5\nx1: @db 1 ? q1: 7, 0 ? 1 :x1, 1?q1:2, 1?<q1:9\n", "05000505"),
+    # a shift directly followed by the opposite bracket as a unary operator; a comparison followed by a unary bracket
+    "tight2": ("@db 1<<>$0300, 256>><$0102, 1<>$00ff, 2><$0001, 1<=<$0001, 4>>>>$0100\n", "084000010102"),
     "entropy": ("@macro me, 0\n@label { \"e\" @entropy }:\n@db 1\n@endmacro\nme\nme\n", "0101"),
 }
 EXTRA_FILES = {"/w/inc.inc": "@db $aa\n", "/w/blob.bin": b"\x10\x11"}
